@@ -38,7 +38,7 @@ use crate::store::*;
 use crate::text::*;
 use crate::types::*;
 
-#[derive(PartialEq, Eq, Debug, Clone, Copy, DataSize, Encode, Decode)]
+#[derive(Eq, Debug, Clone, Copy, DataSize, Encode, Decode)]
 /// Corresponds to a slice of the text. This only contains minimal
 /// information; i.e. the begin offset, end offset and optionally a handle.
 /// if the textselection is already known in the model.
@@ -190,6 +190,14 @@ impl Storable for TextSelection {
     fn unbind(mut self) -> Self {
         self.intid = None;
         self
+    }
+}
+
+impl PartialEq for TextSelection {
+    // Two text selections are equal if they cover the same range, whether or not they carry a
+    // handle (i.e. are already known to the resource). This is consistent with Ord and Hash below.
+    fn eq(&self, other: &Self) -> bool {
+        self.begin == other.begin && self.end == other.end
     }
 }
 
